@@ -80,7 +80,7 @@ class Recorder:
         layout = pair_layout(model)
         names = [n for (_, _, n) in layout]
         ev = {'k': k, 'timeLimit': getattr(cbc, 'timeLimit', None), 'msg': getattr(cbc, 'msg', None),
-              'threads': getattr(cbc, 'threads', None), 'nvars': None}
+              'threads': (getattr(cbc, 'optionsDict', None) or {}).get('threads', getattr(cbc, 'threads', None)), 'nvars': None}
         self.events.append(ev)
         res = None
         if self.mode == 'standin' or self.enumerate_cbc:
